@@ -791,7 +791,7 @@ func (e *env) c02() {
 
 func (e *env) walks(prop string) {
 	roots := e.c.Pick(700, 12000)
-	e.r.Rule = "per valid root: exhaustive depth-2 tree of pseudo-legal makes (incl. moves that leave the king in check, undone at once) and a random walk of <=60 nested makes with null moves interleaved when not in check, then full unwinding; after every op the deep snapshot (placements, rights, ep, counters, whole hash history, token fields) is compared with the model; Go asserts undo==snapshot-before (C03) and Hash()==recomputed hash + three placements agree (C04); non-trivial = make of a capture/castling/promotion/en-passant/double-push/rights-changing move or null move with ep; distinct by (FEN, op path). C03 only: deep walks (nesting depth up to 330, crossing 128 and 256 history entries, null moves interleaved, full unwinding, every op under recover; histogram deepwalk-*; non-trivial = walk of depth >= 127); clock walks (reversible stretches of 130-300 plies, or 40-200 from FENs with clock 90..100, so that the halfmove clock passes 100, 127 and the int8 wrap, with and without castling rights, null moves, an irreversible move at a clock >= 128 in every third; clockwalk-*; non-trivial = walk whose clock reached 128); walks with interference (2-3 boards from StartPos() / FromFEN(same FEN) operated in random alternation, undo compared with the snapshot before its make on every board, untouched boards must not change; aliaswalk-*)"
+	e.r.Rule = "per valid root: exhaustive depth-2 tree of pseudo-legal makes (incl. moves that leave the king in check, undone at once) and a random walk of <=60 nested makes with null moves interleaved when not in check, then full unwinding; after every op the deep snapshot (placements, rights, ep, counters, whole hash history, token fields) is compared with the model; Go asserts undo==snapshot-before (C03) and Hash()==recomputed hash + three placements agree (C04); non-trivial = make of a capture/castling/promotion/en-passant/double-push/rights-changing move or null move with ep; distinct by (FEN, op path). C03 only: deep walks (nesting depth up to 330, crossing 128 and 256 history entries, null moves interleaved, full unwinding, every op under recover; histogram deepwalk-*; non-trivial = walk of depth >= 127); clock walks (reversible stretches of 130-300 plies, or 40-200 from FENs with clock 90..100, so that the halfmove clock passes 100, 127 and the int8 wrap, with and without castling rights, null moves, an irreversible move at a clock >= 128 in every third; clockwalk-*; non-trivial = walk whose clock reached 128); walks with interference (2-3 boards from StartPos() / FromFEN(same FEN) operated in random alternation, undo compared with the snapshot before its make on every board, untouched boards must not change; aliaswalk-*). C03 and C04: the root boards are obtained through the set-up orders of the public API in rotation (FromFEN; FromFEN + ResetHash; zero Board + ParseFEN + ResetHash; ParseFEN + ResetHash into a board that held another position, without / with a move history; root-setup:*), and set-up walks (also StartPos() + moves; ResetHash() at random points of the walk - after makes, null moves, undos, undos back to the reset point, twice in a row - and re-set-up by ParseFEN + ResetHash in the middle of a line; never undone below a reset point; resethash-after:*, re-setup-*; model ops fen / rh)"
 	for i := 0; i < roots; i++ {
 		fen, src := e.s.Next()
 		b, valid, _ := e.load(prop, fen)
@@ -799,12 +799,21 @@ func (e *env) walks(prop string) {
 			continue
 		}
 		e.r.Count(src, 1)
+		// the root board is obtained through the different orders of the public API that set up a position
+		if path := setupPaths[i%len(setupPaths)]; path != "fromfen" {
+			if b = e.setupBoard(prop, fen, path); b == nil {
+				continue
+			}
+		} else {
+			e.r.Count("root-setup:fromfen", 1)
+		}
 		e.tree(prop, fen, b, 2)
 		e.randomWalk(prop, fen, b)
 		if i == 0 {
 			e.r.Sample(map[string]any{"root": fen}, 3)
 		}
 	}
+	e.setupWalks(prop, e.c.Pick(250, 6000))
 	if prop == "C04" {
 		e.transpositions()
 		// the hash invariants past a halfmove clock of 100 / 127 / the int8 wrap
@@ -816,6 +825,334 @@ func (e *env) walks(prop string) {
 		e.deepWalks(prop, e.c.Pick(40, 1200))
 		e.clockWalks(prop, e.c.Pick(30, 900))
 		e.aliasWalks(prop, e.c.Pick(30, 900))
+	}
+}
+
+// setupPaths are the orders of the public board API that set up a position:
+//
+//	fromfen                 board.FromFEN(fen)                                  (uci position, bench, perft/EPD readers, datagen client)
+//	fromfen+resethash       FromFEN, then ResetHash() once more on the fresh board (allowed by the API; the repo never does it)
+//	zero+parsefen+resethash new(Board) / zero value, ParseFEN, ResetHash          (what FromFEN itself does; tools/extract and the tuner parse into a zero Board)
+//	reused-nohistory        ParseFEN + ResetHash into a board that held another, unrelated position (parsed, no moves)
+//	                        (the allocation-free path of tools/tuner/epd.Parse: one Board recycled for every line; the tuner never moves on it)
+//	reused-with-history     the same into a board that held another position AND has a hash history from moves made on it (some taken back)
+//
+// (StartPos() + moves is a further path of setupWalks.)  The repo itself calls ResetHash only inside
+// FromFEN; every other order is merely allowed by the exported API - fair for C04, whose invariants are
+// about "the current position".
+var setupPaths = []string{"fromfen", "zero+parsefen+resethash", "reused-with-history", "fromfen+resethash", "reused-nohistory"}
+
+// otherPosition returns the FEN of a valid (Lean `valid`) position unrelated to the one under test.
+func (e *env) otherPosition() string {
+	for {
+		f, _ := e.s.Next()
+		if b, valid, _ := e.load("C04", f); b != nil && valid && len(implutil.Legal(b)) > 0 {
+			return f
+		}
+	}
+}
+
+// c04Root checks the C04 invariants and the model's dump on a board that has just been set up.
+func (e *env) c04Root(prop string, ops []string, b *board.Board, modelDump string) bool {
+	ok := true
+	func() {
+		defer func() {
+			if r := recover(); r != nil {
+				e.r.Fail(common.Mismatch{Property: prop, Kind: "failing-input", Ops: ops, Impl: fmt.Sprint("panic: ", r)})
+				ok = false
+			}
+		}()
+		e.r.Evaluations++
+		impl := implutil.Dump(b)
+		msg := consistent(b)
+		switch {
+		case msg != "":
+			e.r.Fail(common.Mismatch{Property: "C04", Kind: "failing-input", Ops: ops, Impl: impl, Model: modelDump, Note: "after the set-up: " + msg})
+			ok = false
+		case b.Hash() != b.VerifCalculateHash():
+			e.r.Fail(common.Mismatch{Property: "C04", Kind: "failing-input", Ops: ops, Impl: fmt.Sprintf("incremental %x", uint64(b.Hash())),
+				Spec: fmt.Sprintf("recomputed %x", uint64(b.VerifCalculateHash())), Model: modelDump, Note: "after the set-up: Hash() differs from the hash computed from scratch"})
+			ok = false
+		case "ok "+impl != modelDump:
+			e.r.Fail(common.Mismatch{Property: prop, Kind: "broken-correspondence", Ops: ops, Impl: impl, Model: modelDump, Note: "board after the set-up differs from the model's FromFEN"})
+			ok = false
+		}
+	}()
+	return ok
+}
+
+// setupBoard obtains a board holding fen through the given set-up path and checks it (c04Root).
+func (e *env) setupBoard(prop, fen, path string) *board.Board {
+	rng := e.c.Rng
+	ops := []string{"setup " + path, "fen " + fen}
+	var b *board.Board
+	perr := func() (msg string) {
+		defer func() {
+			if r := recover(); r != nil {
+				msg = fmt.Sprint(r)
+			}
+		}()
+		switch path {
+		case "fromfen":
+			b, _ = board.FromFEN(fen)
+		case "fromfen+resethash":
+			b, _ = board.FromFEN(fen)
+			b.ResetHash()
+		case "zero+parsefen+resethash":
+			b = new(board.Board)
+			if board.ParseFEN(b, []byte(fen)) != nil {
+				b = nil
+				return ""
+			}
+			b.ResetHash()
+		case "reused-nohistory", "reused-with-history":
+			other := e.otherPosition()
+			ops = []string{"setup " + path, "fen " + other}
+			if path == "reused-nohistory" && rng.IntN(2) == 0 {
+				b = new(board.Board)
+				board.ParseFEN(b, []byte(other))
+				if rng.IntN(2) == 0 {
+					b.ResetHash()
+				}
+			} else {
+				b, _ = board.FromFEN(other)
+			}
+			if path == "reused-with-history" {
+				type fr struct {
+					m move.Move
+					r board.Reverse
+				}
+				var st []fr
+				for k := 1 + rng.IntN(30); k > 0; k-- {
+					if len(st) > 0 && rng.IntN(4) == 0 {
+						b.UndoMove(st[len(st)-1].m, st[len(st)-1].r)
+						st = st[:len(st)-1]
+						ops = append(ops, "um")
+						continue
+					}
+					l := implutil.Legal(b)
+					if len(l) == 0 {
+						break
+					}
+					m := l[rng.IntN(len(l))]
+					st = append(st, fr{m, b.MakeMove(m)})
+					ops = append(ops, "mk "+strconv.Itoa(int(m)))
+				}
+			}
+			ops = append(ops, "parsefen "+fen, "resethash")
+			if board.ParseFEN(b, []byte(fen)) != nil {
+				b = nil
+				return ""
+			}
+			if msg := consistent(b); msg != "" {
+				e.r.Fail(common.Mismatch{Property: "C04", Kind: "failing-input", Ops: ops[:len(ops)-1], Impl: implutil.Dump(b), Note: "after ParseFEN into a used board: " + msg})
+				b = nil
+				return ""
+			}
+			b.ResetHash()
+		}
+		return ""
+	}()
+	e.r.Count("root-setup:"+path, 1)
+	if perr != "" {
+		e.r.Fail(common.Mismatch{Property: prop, Kind: "failing-input", Ops: ops, Impl: "panic: " + perr})
+		return nil
+	}
+	if b == nil {
+		return nil
+	}
+	if !e.c04Root(prop, ops, b, e.m.Ask("fen "+fen)) {
+		return nil
+	}
+	return b
+}
+
+// setupWalks: ORDERS OF THE PUBLIC BOARD API that set up / re-set-up a position before and between
+// moves.  Per session a board is obtained through one of setupPaths or by StartPos() + 1..20 moves,
+// then a random sequence of 20-80 ops runs on it: makes of legal moves, null moves, undos (never
+// below the last ResetHash / set-up point: the history was cut there), ResetHash() at random points -
+// after a make, after a null move, after an undo, after undoing back to the root, twice in a row,
+// directly after the set-up - and now and then a re-set-up of the same board by ParseFEN + ResetHash
+// with another position in the middle of a line.  After EVERY op: Hash() == VerifCalculateHash(), the
+// three placements agree, the dump equals the model's (driver ops fen / mkq / um / nm / unm / rh), and
+// an undo restores the snapshot taken before its make.  Finally the walk is unwound to the last reset
+// point.  Counted: sessions per set-up path, ResetHash calls per kind of position in the walk.
+func (e *env) setupWalks(prop string, n int) {
+	rng := e.c.Rng
+	type saved struct {
+		snap string
+		r    board.Reverse
+		m    move.Move
+		null bool
+	}
+	for w := 0; w < n; w++ {
+		var fen string
+		for {
+			f, _ := e.s.Next()
+			if b, valid, _ := e.load(prop, f); b != nil && valid {
+				fen = f
+				break
+			}
+		}
+		path := append(append([]string{}, setupPaths...), "startpos+moves")[w%(len(setupPaths)+1)]
+		var b *board.Board
+		var reqs []string // model requests, in step with want
+		var got []string  // implementation dumps
+		ops := []string{}
+		if path == "startpos+moves" {
+			fen = StartPosFEN
+			b = board.StartPos()
+			e.r.Count("root-setup:startpos+moves", 1)
+			ops = append(ops, "startpos")
+			if !e.c04Root(prop, ops, b, e.m.Ask("fen "+fen)) {
+				continue
+			}
+		} else {
+			if b = e.setupBoard(prop, fen, path); b == nil {
+				continue
+			}
+			ops = append(ops, "setup "+path, "fen "+fen)
+		}
+		reqs = append(reqs, "fen "+fen)
+		got = append(got, "ok "+implutil.Dump(b))
+		var stack []saved
+		last := "setup" // what the previous op was, for the ResetHash histogram
+		failed := false
+		total := 20 + rng.IntN(61)
+		preMoves := 0
+		if path == "startpos+moves" {
+			preMoves = 1 + rng.IntN(20)
+		}
+		do := func(kind byte) {
+			perr := func() (msg string) {
+				defer func() {
+					if r := recover(); r != nil {
+						msg = fmt.Sprint(r)
+					}
+				}()
+				var impl string
+				switch kind {
+				case 'm':
+					l := implutil.Legal(b)
+					if len(l) == 0 {
+						return ""
+					}
+					m := l[rng.IntN(len(l))]
+					before := implutil.Dump(b)
+					r := b.MakeMove(m)
+					stack = append(stack, saved{snap: before, r: r, m: m})
+					impl = implutil.Dump(b) + " | " + implutil.Token(r)
+					reqs = append(reqs, "mkq "+strconv.Itoa(int(m)))
+					last = "make"
+				case 'n':
+					before := implutil.Dump(b)
+					r := b.MakeNullMove()
+					stack = append(stack, saved{snap: before, r: r, null: true})
+					impl = implutil.Dump(b) + " | " + implutil.Token(r)
+					reqs = append(reqs, "nm")
+					last = "null-move"
+				case 'u':
+					sv := stack[len(stack)-1]
+					stack = stack[:len(stack)-1]
+					if sv.null {
+						b.UndoNullMove(sv.r)
+						reqs = append(reqs, "unm")
+					} else {
+						b.UndoMove(sv.m, sv.r)
+						reqs = append(reqs, "um "+strconv.Itoa(int(sv.m)))
+					}
+					impl = implutil.Dump(b)
+					last = "undo"
+					if len(stack) == 0 {
+						last = "undo-to-the-reset-point"
+					}
+					if impl != sv.snap {
+						e.r.Fail(common.Mismatch{Property: prop, Kind: "failing-input", Ops: append(append([]string{}, ops...), reqs[len(reqs)-1]), Impl: impl, Spec: sv.snap,
+							Note: "undo did not restore the snapshot taken before the make"})
+						failed = true
+					}
+				case 'r':
+					b.ResetHash()
+					stack = stack[:0]
+					impl = implutil.Dump(b)
+					reqs = append(reqs, "rh")
+					e.r.Count("resethash-calls", 1)
+					e.r.Count("resethash-after:"+last, 1)
+					last = "resethash"
+				case 'p':
+					f2 := e.otherPosition()
+					if board.ParseFEN(b, []byte(f2)) != nil {
+						panic("ParseFEN rejected a FEN that FromFEN accepts: " + f2)
+					}
+					if msg := consistent(b); msg != "" {
+						e.r.Fail(common.Mismatch{Property: "C04", Kind: "failing-input", Ops: append(append([]string{}, ops...), "parsefen "+f2), Impl: implutil.Dump(b),
+							Note: "after ParseFEN into the board in the middle of a line: " + msg})
+						failed = true
+					}
+					b.ResetHash()
+					stack = stack[:0]
+					impl = "ok " + implutil.Dump(b)
+					reqs = append(reqs, "fen "+f2)
+					e.r.Count("re-setup-by-parsefen+resethash-after:"+last, 1)
+					last = "setup"
+				}
+				if impl == "" {
+					return ""
+				}
+				ops = append(ops, reqs[len(reqs)-1])
+				got = append(got, impl)
+				e.r.Evaluations++
+				if b.Hash() != b.VerifCalculateHash() {
+					e.r.Fail(common.Mismatch{Property: "C04", Kind: "failing-input", Ops: append([]string{}, ops...),
+						Impl: fmt.Sprintf("incremental %x", uint64(b.Hash())), Spec: fmt.Sprintf("recomputed %x", uint64(b.VerifCalculateHash())),
+						Note: "Hash() differs from the hash computed from scratch for the current position"})
+					failed = true
+				}
+				if msg := consistent(b); msg != "" {
+					e.r.Fail(common.Mismatch{Property: "C04", Kind: "failing-input", Ops: append([]string{}, ops...), Impl: impl, Note: msg})
+					failed = true
+				}
+				return ""
+			}()
+			if perr != "" {
+				e.r.Fail(common.Mismatch{Property: prop, Kind: "failing-input", Ops: append(append([]string{}, ops...), string(kind)), Impl: "panic: " + perr})
+				failed = true
+			}
+		}
+		for k := 0; k < preMoves && !failed; k++ {
+			do('m')
+		}
+		for k := 0; k < total && !failed; k++ {
+			x := rng.IntN(100)
+			switch {
+			case x < 3:
+				do('p')
+			case x < 15 || (last == "undo-to-the-reset-point" && x < 40) || (last == "resethash" && x < 22):
+				do('r')
+			case x < 38 && len(stack) > 0:
+				do('u')
+			case x < 50 && !b.InCheck(b.STM):
+				do('n')
+			default:
+				do('m')
+			}
+		}
+		for len(stack) > 0 && !failed {
+			do('u')
+		}
+		e.r.Count("setupwalk", 1)
+		e.r.Count("setupwalk-ops", len(got)-1)
+		e.r.Nontrivial(fmt.Sprintf("setup %s %s %v", path, fen, ops[:min(len(ops), 10)]))
+		if failed {
+			continue
+		}
+		ans := e.m.Batch(reqs)
+		for k := range reqs {
+			if ans[k] != got[k] {
+				e.r.Fail(common.Mismatch{Property: prop, Kind: "broken-correspondence", Ops: append([]string{"setup " + path}, reqs[:k+1]...), Impl: got[k], Model: ans[k]})
+				break
+			}
+		}
 	}
 }
 
